@@ -1795,6 +1795,9 @@ func (m *repoManager) makeMaster(newMasterUUID dvid.UUID, oldMasterBranchName st
 		return fmt.Errorf("given UUID must be the first node of the branch to make master")
 	}
 	parentV := newMasterNode.parents[0]
+	if parentNode, found := r.dag.nodes[parentV]; !found || parentNode.branch != "" {
+		return fmt.Errorf("given UUID %s is not directly branched off master", newMasterUUID)
+	}
 	oldMasterNode, err := r.getChildBranchNode(parentV, "")
 	if err != nil {
 		return err
